@@ -46,6 +46,10 @@ CHECKS = {
    text="FlushRate.tla models the back-pressure protocol one action per critical section (writer: put, measure, register, signal, wait; flusher: tick, take, check, commit, notify; explicit Flush caller). TLC checks NoLostWakeup (waiting ~> released) under weak fairness of the flusher and a recurring ticker, and exports one schedule per transition of the state graph. A cooperative scheduler keyed by goroutine id replays each schedule on a real store (the harness plays Store.run's ticker and receive through verif accessors), probes after every flusher step whether a waiting writer can proceed, then lets all threads run free with a 1 ms ticker for 2 s. TLC judges the recorded events: R1 every writer returned; R2 a writer is released only after a flusher step in which Flush returned began after its registration.",
    note="1-writer programs (with and without an explicit Flush caller) exhaustively; 2-writer programs exhaustively in the thorough tier, sampled in the quick tier; atomicity violations strictly inside a critical section are only reachable in the free-running phase; 'waits for ever' is observed as 'has not returned after 2 s with a 1 ms ticker'.",
    ref="DESIGN.md §3.7, §6 C12"),
+ "C11": dict(engine="seq", technique="TLC-generated histories (KV.tla -simulate) extended by kill and GC phases, executed on the real store; C11Trace.tla (TLC) judges projections of the real files, reported storage sizes and directory fingerprints",
+   text="Histories from KV.tla are continued in four ways (all keys removed; a subset removed/overwritten; a subset overwritten followed by drain cycles with threshold 0; idle rounds) and executed with file limits of 30-200 B so that data spreads over many primary and index files. C11Trace.tla evaluates on the projection of the REAL directory after every cycle: a non-current primary file without live references / an index file without bucket references has length 0 or is gone after at most 2 completed cycles; every file that was non-current when a threshold-0 drain began is released within ceil(live/2)+3 cycles; a cycle never increases the reported StorageSize (16 B header slack); once two consecutive idle rounds leave the directory fingerprint unchanged all later rounds do, and no file except the re-created empty freelist is touched.",
+   note="cycle bounds are generous versions of the measured ones (1 and ceil(live/2)+1); GC cycles run without time limits in this check (progress under time limits is not bounded by the property); 'unlinked' is demanded only in the form the property states (0-byte files that become oldest later may stay).",
+   ref="DESIGN.md §6 C11"),
 }
 
 NOT_APPLICABLE = [
@@ -84,7 +88,7 @@ def main():
         "hooks": {"guard": "verif (Go build tag)", "enable": "go build -tags verif (the harness in /verif/harness is built with -tags verif against /repo via a replace directive)",
                   "baseline_off_cmd": BASELINE_OFF, "source_commits": [h.split()[0] for h in hooks_commits], "add_only": True},
         "engines": [
-            {"name": "seq", "path": "harness/cmd/vrun/seq.go + harness/internal/fsckread + spec/KV.tla + spec/StoreTrace.tla + tools/seqeng.py", "serves_properties": ["C01", "C02", "C04", "C07", "C09", "C13"], "kind_free_text": "TLC-generated call histories executed on a real store.Store; TLC total monitor over the recorded trace"},
+            {"name": "seq", "path": "harness/cmd/vrun/seq.go + harness/internal/fsckread + spec/KV.tla + spec/StoreTrace.tla + tools/seqeng.py", "serves_properties": ["C01", "C02", "C04", "C07", "C09", "C11", "C13"], "kind_free_text": "TLC-generated call histories executed on a real store.Store; TLC total monitor over the recorded trace"},
             {"name": "bstore", "path": "harness/cmd/vrun/bstore.go + spec/Blockstore.tla + spec/BlockstoreTrace.tla", "serves_properties": ["C15"], "kind_free_text": "TLC state-graph replay on real HashedBlockstore + TLC trace monitor"},
             {"name": "flushrate", "path": "harness/cmd/vrun/flushrate.go + harness/internal/sched + spec/FlushRate.tla + spec/FlushRateTrace.tla", "serves_properties": ["C12"], "kind_free_text": "TLC schedules replayed by a cooperative scheduler at yield points (build tag verif); TLC trace monitor"},
             {"name": "fcache", "path": "harness/cmd/vrun/fcache.go + spec/FileCache.tla + spec/FileCacheTrace.tla", "serves_properties": ["C14"], "kind_free_text": "TLC state-graph replay on real FileCache + TLC trace monitor"},
